@@ -1,4 +1,5 @@
 import QF.Drv.Hist
+import QF.Drv.Csv
 /-
 qfdriver: replays a harness transcript (stdin) through the Lean model and spec.
 Output: one line per mismatch
@@ -12,6 +13,7 @@ structure DState where
   sect : String := ""
   scn : String := "?"
   hist : HState := {}
+  csv : CState := {}
   checks : Nat := 0
   mism : Nat := 0
   scenarios : Nat := 0
@@ -37,7 +39,7 @@ partial def loop (h : IO.FS.Stream) (st : DState) (lineNo : Nat) : IO DState := 
   let toks := splitLine (line.trimAsciiEnd.toString)
   match toks[0]? with
   | some "S" =>
-    let st := { st with sect := toks[1]?.getD "", scn := toks[3]?.getD "?", hist := {}, scenarios := st.scenarios + 1 }
+    let st := { st with sect := toks[1]?.getD "", scn := toks[3]?.getD "?", hist := {}, csv := {}, scenarios := st.scenarios + 1 }
     loop h st (lineNo + 1)
   | some "E" => loop h st (lineNo + 1)
   | some _ =>
@@ -45,6 +47,10 @@ partial def loop (h : IO.FS.Stream) (st : DState) (lineNo : Nat) : IO DState := 
     | "hist" =>
       let (hs, ms) := histLine st.hist toks
       let st ← emit { st with hist := hs } lineNo ms
+      loop h st (lineNo + 1)
+    | "csvraw" | "csvread" =>
+      let (cs, ms) := csvLine st.csv toks
+      let st ← emit { st with csv := cs } lineNo ms
       loop h st (lineNo + 1)
     | _ => loop h st (lineNo + 1)
   | none => loop h st (lineNo + 1)
